@@ -185,12 +185,16 @@ class MemFile:
     def read(self, size=-1):
         cells = self.fs.files[self.name]
         if isinstance(size, (SInt, SWord)):
-            # fork on "at least what remains" so that all large sizes are one path
-            remaining = max(0, len(cells) - self.pos)
-            if size < 0 or size >= remaining:
-                size = -1
+            kv = symx.known_value(size)
+            if kv is not None:
+                size = kv
             else:
-                size = size.__index__()
+                # fork on "at least what remains" so that all large sizes are one path
+                remaining = max(0, len(cells) - self.pos)
+                if size < 0 or size >= remaining:
+                    size = -1
+                else:
+                    size = size.__index__()
         if size is None or size < 0:
             out = cells[self.pos:]
         else:
